@@ -15,6 +15,96 @@ open LZ LZ.Gen LZ.GenBuf LZ.GenHash LZ.GenHPParse LZ.GenParse
 def absD (s : Gen.doubleHashParser) : Hash2 :=
   ⟨ofHash s.doubleHashDictionary.h1, ofHash s.doubleHashDictionary.h2⟩
 
+/-- decides a test of the stored value in the goal, spelled `a ≠ b`, `b ≠ a`, `¬ a = b`, … (either arm order) -/
+local macro "val_test_ne" h:term : tactic => `(tactic|
+  (simp only [eq_false $h, eq_false (Ne.symm $h), ne_eq, not_false_eq_true, not_true_eq_false, if_true, if_false]))
+local macro "val_test_eq" h:term : tactic => `(tactic|
+  (simp only [eq_true (Decidable.not_not.mp $h), eq_true (Decidable.not_not.mp $h).symm, ne_eq, not_false_eq_true,
+    not_true_eq_false, if_true, if_false]))
+
+set_option hygiene false in
+/-- rewrites the clamp `if k > len(p)-i { k = len(p)-i }` of the first word, in any spelling (operand order, `≤`/`<`,
+    negated test, `min`), to `↑k8`; from `hk8` of `first_word` -/
+local macro "first_word_clamp" : tactic => `(tactic| (
+  generalize htz : ((BytesW.tz64 (z ^^^ y) >>> 3 : Nat) : Int) = tz at hk8 ⊢
+  have hkA : (if Int.ofNat L - ia < tz then Int.ofNat L - ia else tz) = ((k8 : Nat) : Int) := hk8
+  have hkB : (if tz ≤ Int.ofNat L - ia then tz else Int.ofNat L - ia) = ((k8 : Nat) : Int) := by
+    rw [← hkA]; split <;> split <;> omega
+  have hkC : (if tz < Int.ofNat L - ia then tz else Int.ofNat L - ia) = ((k8 : Nat) : Int) := by
+    rw [← hkA]; split <;> split <;> omega
+  have hkD : (if Int.ofNat L - ia ≤ tz then Int.ofNat L - ia else tz) = ((k8 : Nat) : Int) := by
+    rw [← hkA]; split <;> split <;> omega
+  simp only [LZ.GenProps.gen_min, Int.min_def, gt_iff_lt, ge_iff_le, Int.not_lt, Int.not_le, hkA, hkB, hkC, hkD]
+  clear hkA hkB hkC hkD htz))
+
+set_option hygiene false in
+/-- `CLAMP = ↑(min a b)` for a generated clamp `if x > e { x = e }` / `min(x, e)` in any spelling -/
+local macro "clamp_eq" : tactic => `(tactic| (
+  (try simp only [LZ.GenProps.gen_min, Int.min_def, Int.ofNat_eq_natCast])
+  subst hia
+  (try subst hE1)
+  (try subst hE2)
+  (repeat' split) <;> omega))
+
+set_option hygiene false in
+/-- closes `BLOCK = Res.ok ↑kk`, `BLOCK` = the translated block
+    `if k == 8 { r := p[j+8:]; q := p[i+8:]; for len(q) >= 8 {…}; if len(q) > 0 {…} }` AS IT STANDS IN THE GOAL, from
+    `hme : BytesW.matchExt (A.take L) i j k8 = some kk` (local names of the step lemmas below).  The extension loop is
+    whatever function the goal calls (`loop2_cont` / `loop6_cont` by unification); its result is read through
+    `ExtView` only; every test is split as it comes and decided by `omega`. -/
+local macro "dhp_ext_block" : tactic => `(tactic| (
+  have hpl' : (A.take L).length = L := by rw [List.length_take]; omega
+  by_cases h8 : k8 = 8
+  · subst h8
+    have hme' := hme
+    unfold BytesW.matchExt at hme'
+    rw [if_pos rfl, BytesW.sliceFrom_eq_some _ _ (by rw [hpl']; omega),
+      BytesW.sliceFrom_eq_some _ _ (by rw [hpl']; omega)] at hme'
+    simp only [Option.bind_eq_bind, Option.bind_some] at hme'
+    rw [if_pos (by omega)]
+    refine bind_trans (slice_okI _ _ _ (j + 8) L (by (try simp only [Int.ofNat_eq_natCast]); omega)
+      (by first | rfl | (simp only [Int.ofNat_eq_natCast]; omega)) (by omega) hLA) ?_
+    refine bind_trans (slice_okI _ _ _ (i + 8) L (by (try simp only [Int.ofNat_eq_natCast]); omega)
+      (by first | rfl | (simp only [Int.ofNat_eq_natCast]; omega)) (by omega) hLA) ?_
+    try dsimp only
+    first
+      | refine loop2_cont (L - i) fuel 8 kk (by first | omega | (dsimp only; omega)) (by omega) rfl (swf_drop _ _ _ hLA)
+          (swf_drop _ _ _ hLA) (by first | omega | (dsimp only; omega)) (by rw [data_drop, data_drop]; exact hme')
+          (fun res done kN' r' q' hv hr' hq' h1 h0 => ?_)
+      | refine loop6_cont (L - i) fuel 8 kk (by first | omega | (dsimp only; omega)) (by omega) rfl (swf_drop _ _ _ hLA)
+          (swf_drop _ _ _ hLA) (by first | omega | (dsimp only; omega)) (by rw [data_drop, data_drop]; exact hme')
+          (fun res done kN' r' q' hv hr' hq' h1 h0 => ?_)
+    obtain ⟨hd, hk', hrr, hqq⟩ := hv
+    try dsimp only
+    simp only [hk', hrr, hqq]
+    by_cases hdone : done
+    · have hdT := eq_true (hd.mpr hdone)
+      simp only [hdT, not_true_eq_false, false_and, and_false, if_true, if_false, bind_ok]
+      rw [h1 hdone]
+    · have hdF := eq_false (fun h => hdone (hd.mp h))
+      simp only [hdF, not_false_eq_true, true_and, and_true, if_true, if_false]
+      have hkk := h0 hdone
+      unfold BytesW.matchExtTail at hkk
+      rw [data_length hq'] at hkk
+      split
+      · rename_i hpos
+        rw [if_pos (by (try simp only [Int.ofNat_eq_natCast] at hpos); omega)] at hkk
+        rw [gen_getLE64 r' hr', bind_ok, gen_getLE64 q' hq', bind_ok]
+        simp only [bind_ok, tz_shr]
+        apply congrArg Res.ok
+        try simp only [Int.ofNat_eq_natCast]
+        rw [← hkk]
+        try dsimp only
+        split <;> split <;> omega
+      · rename_i hpos
+        rw [if_neg (by (try simp only [Int.ofNat_eq_natCast] at hpos); omega)] at hkk
+        rw [bind_ok, hkk]
+  · rw [if_neg (by omega)]
+    unfold BytesW.matchExt at hme
+    rw [if_neg h8] at hme
+    injection hme with hme
+    rw [hme]))
+
 set_option maxHeartbeats 1000000 in
 /-- one iteration of the SECOND loop (`for ; i < e1; i++`, entered with `e2 ≤ i`) -/
 theorem loop5_step (grow : Nat → Nat → Nat) (e1I mm : Int) (A : List UInt8) (L E1 E2 mmN ws : Nat)
@@ -63,10 +153,11 @@ theorem loop5_step (grow : Nat → Nat → Nat) (e1I mm : Int) (A : List UInt8) 
       intro hc; apply hvA; apply UInt32.toNat_inj.mp; rw [lo32_eq]; exact hc
     refine ⟨(⟨ofHashT s.doubleHashDictionary.h1 t1, ofHash s.doubleHashDictionary.h2⟩, none), by rw [hnf, if_pos hA]; rfl,
       t1, ht1, rfl, ?_, by intro st k o h; cases h⟩
-    rw [if_pos hvA]
+    val_test_ne hvA
+    try rfl
   have hA : ¬ lo32 (y &&& s.doubleHashDictionary.h1.mask) ≠ (ofEntry ent).2 := by
     intro hc; apply hc; rw [← lo32_eq, Decidable.not_not.mp hvA]; rfl
-  rw [if_neg hvA]
+  val_test_eq hvA
   rw [if_neg hA] at hnf
   unfold tailM2 at hnf
   simp only [Bool.false_eq_true, if_false, Option.bind_some, Nat.sub_zero, Nat.add_zero] at hnf
@@ -95,7 +186,7 @@ theorem loop5_step (grow : Nat → Nat → Nat) (e1I mm : Int) (A : List UInt8) 
   rw [hF2]
   rw [tz_shr]
   obtain ⟨k8, hk8le, hk8, hfw⟩ := first_word A L E1 mmN i j y z ia hia hy hz hw.1 hi hEL hLA hEA
-  rw [hk8]
+  first_word_clamp
   rcases hfw with ⟨hC1, hml⟩ | ⟨hC1, kk, hme, hml, hkk1, hkk2⟩
   · refine ⟨(⟨ofHashT s.doubleHashDictionary.h1 t1, ofHash s.doubleHashDictionary.h2⟩, none), by rw [hnf, hml]; rfl,
       t1, ht1, rfl, ?_, by intro st k o h; cases h⟩
@@ -103,14 +194,23 @@ theorem loop5_step (grow : Nat → Nat → Nat) (e1I mm : Int) (A : List UInt8) 
   rw [if_neg (by omega)]
   -- the re-indexing loop (it starts at the match position j)
   obtain ⟨t2, ht2, hr7, hl7⟩ := loopH1_eq
-    (doubleHashParser_Parse_loop_7 grow (if ia + (kk : Int) > e1I then e1I else ia + (kk : Int))
+    (doubleHashParser_Parse_loop_7 grow ((Min.min (i + kk) E1 : Nat) : Int)
       (y &&& s.doubleHashDictionary.h1.mask) { arr := A, len := E1 + 7 }
       (Gen.hashValue (y &&& s.doubleHashDictionary.h1.mask) s.doubleHashDictionary.h1.shift))
-    (if ia + (kk : Int) > e1I then e1I else ia + (kk : Int)) { arr := A, len := E1 + 7 }
+    ((Min.min (i + kk) E1 : Nat) : Int) { arr := A, len := E1 + 7 }
     (loop7_heq grow _ _ _ _)
     (Min.min (i + kk) E1 - j) fuel j ((j : Nat) : Int) (setTT s t1 s.doubleHashDictionary.h2.table) rfl
-    (by rw [hia, hE1]; split <;> omega) (by omega)
+    (by omega) (by omega)
     (by show _ ∨ _ ≤ E1 + 7; omega) c1 ht1
+  -- the bound `b` of the generated call, in whatever spelling, is `min (i + kk) E1`
+  have hl7b : ∀ b : Int, b = ((Min.min (i + kk) E1 : Nat) : Int) →
+      doubleHashParser_Parse_loop_7 grow b (y &&& s.doubleHashDictionary.h1.mask) { arr := A, len := E1 + 7 }
+        (Gen.hashValue (y &&& s.doubleHashDictionary.h1.mask) s.doubleHashDictionary.h1.shift) fuel ((j : Nat) : Int)
+        (setTT s t1 s.doubleHashDictionary.h2.table) =
+      doubleHashParser_Parse_loop_7 grow ((Min.min (i + kk) E1 : Nat) : Int) (y &&& s.doubleHashDictionary.h1.mask)
+        { arr := A, len := E1 + 7 }
+        (Gen.hashValue (y &&& s.doubleHashDictionary.h1.mask) s.doubleHashDictionary.h1.shift) fuel ((j : Nat) : Int)
+        (setTT s t1 s.doubleHashDictionary.h2.table) := fun b hb => by rw [hb]
   rw [hpd] at hr7
   have hr7' : ProbeW.insertRangeW (ofHashT s.doubleHashDictionary.h1 t1) (List.take (E1 + 7) A) j
       (Min.min (i + kk) E1 - j) = some (ofHashT s.doubleHashDictionary.h1 t2) := hr7
@@ -119,13 +219,11 @@ theorem loop5_step (grow : Nat → Nat → Nat) (e1I mm : Int) (A : List UInt8) 
   · rw [hnf, hml, Option.bind_some]
     dsimp only
     rw [hr7']; rfl
-  · refine bind_trans (v := (kk : Int))
-      (extBlock_eq _ (loop6_spec grow (y &&& s.doubleHashDictionary.h1.mask)) fuel A L i j k8 kk ia hia hw.1 hk8le hLA
-        (by omega) hme) ?_
+  · refine bind_trans (v := (kk : Int)) (by dhp_ext_block) ?_
     dsimp only
     refine bind_trans (slice_okI _ lia ia li i hlia hia hli (by show i ≤ A.length; omega)) ?_
     dsimp only
-    refine bind_trans hl7 ?_
+    refine bind_trans ((hl7b _ (by clamp_eq)).trans hl7) ?_
     dsimp only
     have e1 : ia + (kk : Int) - 1 + 1 = ((i + kk : Nat) : Int) := by omega
     have e2 : ia + (kk : Int) = ((i + kk : Nat) : Int) := by omega
@@ -198,18 +296,21 @@ theorem loop1_step (grow : Nat → Nat → Nat) (e2I mm e1I : Int) (A : List UIn
     refine ⟨(⟨ofHashT s.doubleHashDictionary.h1 t1, ofHashT s.doubleHashDictionary.h2 u1⟩, none),
       by rw [hnf, if_pos ((val_ne_iff _ _).mp hv2), if_pos ((val_ne_iff _ _).mp hv1)],
       t1, u1, ht1, hu1, rfl, ?_, by intro st k o h; cases h⟩
-    rw [if_pos hv2, if_pos hv1]
+    val_test_ne hv2
+    val_test_ne hv1
+    try rfl
   all_goals (
     -- the candidate `ent`: the entry of h1 (the value of h2 differs) or the entry of h2
     first
-      | (rw [if_pos hv2, if_neg hv1]
+      | (val_test_ne hv2
+         val_test_eq hv1
          have hnfE : ProbeW.dhpProbeW ws mmN E1 E2 false (A.drop L) (absD s) (A.take L) i li =
              tailM1 ws mmN E1 E2 false (A.drop L) (A.take L) (A.take (E1 + 7)) i li
                (ofHashT s.doubleHashDictionary.h1 t1) (ofHashT s.doubleHashDictionary.h2 u1) (ofEntry ent1) := by
            rw [hnf, if_pos ((val_ne_iff _ _).mp hv2), if_neg (fun hc => hv1 ((val_ne_iff _ _).mpr hc))]
          obtain ⟨ent, hent⟩ : ∃ ent, ent = ent1 := ⟨_, rfl⟩
          rw [← hent] at hnfE ⊢)
-      | (rw [if_neg hv2]
+      | (val_test_eq hv2
          have hnfE : ProbeW.dhpProbeW ws mmN E1 E2 false (A.drop L) (absD s) (A.take L) i li =
              tailM1 ws mmN E1 E2 false (A.drop L) (A.take L) (A.take (E1 + 7)) i li
                (ofHashT s.doubleHashDictionary.h1 t1) (ofHashT s.doubleHashDictionary.h2 u1) (ofEntry ent2) := by
@@ -243,7 +344,7 @@ theorem loop1_step (grow : Nat → Nat → Nat) (e2I mm e1I : Int) (A : List UIn
     rw [hF2]
     rw [tz_shr]
     obtain ⟨k8, hk8le, hk8, hfw⟩ := first_word A L E1 mmN i j y z ia hia hy hz hw.1 (by omega) hEL hLA hEA
-    rw [hk8]
+    first_word_clamp
     rcases hfw with ⟨hC1, hml⟩ | ⟨hC1, kk, hme, hml, hkk1, hkk2⟩
     · refine ⟨(⟨ofHashT s.doubleHashDictionary.h1 t1, ofHashT s.doubleHashDictionary.h2 u1⟩, none),
         by rw [hnfE, hml]; rfl, t1, u1, ht1, hu1, rfl, ?_, by intro st k o h; cases h⟩
@@ -251,11 +352,11 @@ theorem loop1_step (grow : Nat → Nat → Nat) (e2I mm e1I : Int) (A : List UIn
     rw [if_neg (by omega)]
     -- the re-indexing loops: both tables for [i+1, min(i+k, e2)), then the table of h1 for [.., min(i+k, e1))
     obtain ⟨t1a, t2a, ht1a, ht2a, hr1, hr2, hl3⟩ := loop3_eq grow
-      (if ia + (kk : Int) > e2I then e2I else ia + (kk : Int)) y { arr := A, len := E1 + 7 }
+      ((Min.min (i + kk) E2 : Nat) : Int) y { arr := A, len := E1 + 7 }
       (y &&& s.doubleHashDictionary.h1.mask)
       (Gen.hashValue (y &&& s.doubleHashDictionary.h1.mask) s.doubleHashDictionary.h1.shift) (UInt32.ofInt ia)
       (Min.min (i + kk) E2 - (i + 1)) fuel (i + 1) (ia + 1) (setTT s t1 u1) (by omega)
-      (by rw [hia, hE2]; split <;> omega) (by omega)
+      (by omega) (by omega)
       (by show _ ∨ _ ≤ E1 + 7; omega) c1 ht1 c2 hu1
     rw [hpd] at hr1 hr2
     have hr1' : ProbeW.insertRangeW (ofHashT s.doubleHashDictionary.h1 t1) (List.take (E1 + 7) A) (i + 1)
@@ -264,20 +365,37 @@ theorem loop1_step (grow : Nat → Nat → Nat) (e2I mm e1I : Int) (A : List UIn
         (Min.min (i + kk) E2 - (i + 1)) = some (ofHashT s.doubleHashDictionary.h2 t2a) := hr2
     have hj3 : i + 1 + (Min.min (i + kk) E2 - (i + 1)) = Min.min (i + kk) E2 := by omega
     rw [hj3] at hl3
+    -- the bound `b` of the generated call, in whatever spelling, is `min (i + kk) E2`
+    have hl3b : ∀ b : Int, b = ((Min.min (i + kk) E2 : Nat) : Int) →
+        doubleHashParser_Parse_loop_3 grow b y { arr := A, len := E1 + 7 } (y &&& s.doubleHashDictionary.h1.mask)
+          (Gen.hashValue (y &&& s.doubleHashDictionary.h1.mask) s.doubleHashDictionary.h1.shift) (UInt32.ofInt ia)
+          fuel (ia + 1) (setTT s t1 u1) =
+        doubleHashParser_Parse_loop_3 grow ((Min.min (i + kk) E2 : Nat) : Int) y { arr := A, len := E1 + 7 }
+          (y &&& s.doubleHashDictionary.h1.mask)
+          (Gen.hashValue (y &&& s.doubleHashDictionary.h1.mask) s.doubleHashDictionary.h1.shift) (UInt32.ofInt ia)
+          fuel (ia + 1) (setTT s t1 u1) := fun b hb => by rw [hb]
     have e1 : ia + (kk : Int) - 1 + 1 = ((i + kk : Nat) : Int) := by omega
     have e2 : ia + (kk : Int) = ((i + kk : Nat) : Int) := by omega
     have e3 : ia - Int.ofNat j = ((i - j : Nat) : Int) := by show ia - (j : Int) = _; omega
     by_cases hlong : E2 < i + kk
     · obtain ⟨t1b, ht1b, hr4, hl4⟩ := loopH1_eq
-        (doubleHashParser_Parse_loop_4 grow (if ia + (kk : Int) > e1I then e1I else ia + (kk : Int))
+        (doubleHashParser_Parse_loop_4 grow ((Min.min (i + kk) E1 : Nat) : Int)
           (y &&& s.doubleHashDictionary.h1.mask) { arr := A, len := E1 + 7 }
           (Gen.hashValue (y &&& s.doubleHashDictionary.h1.mask) s.doubleHashDictionary.h1.shift) (UInt32.ofInt ia))
-        (if ia + (kk : Int) > e1I then e1I else ia + (kk : Int)) { arr := A, len := E1 + 7 }
+        ((Min.min (i + kk) E1 : Nat) : Int) { arr := A, len := E1 + 7 }
         (loop4_heq grow _ _ _ _ _)
         (Min.min (i + kk) E1 - Min.min (i + kk) E2) fuel (Min.min (i + kk) E2) ((Min.min (i + kk) E2 : Nat) : Int)
         (setTT s t1a t2a) rfl
-        (by rw [hia, hE1]; split <;> omega) (by omega)
+        (by omega) (by omega)
         (by show _ ∨ _ ≤ E1 + 7; omega) c1 ht1a
+      have hl4b : ∀ b : Int, b = ((Min.min (i + kk) E1 : Nat) : Int) →
+          doubleHashParser_Parse_loop_4 grow b (y &&& s.doubleHashDictionary.h1.mask) { arr := A, len := E1 + 7 }
+            (Gen.hashValue (y &&& s.doubleHashDictionary.h1.mask) s.doubleHashDictionary.h1.shift) (UInt32.ofInt ia)
+            fuel ((Min.min (i + kk) E2 : Nat) : Int) (setTT s t1a t2a) =
+          doubleHashParser_Parse_loop_4 grow ((Min.min (i + kk) E1 : Nat) : Int) (y &&& s.doubleHashDictionary.h1.mask)
+            { arr := A, len := E1 + 7 }
+            (Gen.hashValue (y &&& s.doubleHashDictionary.h1.mask) s.doubleHashDictionary.h1.shift) (UInt32.ofInt ia)
+            fuel ((Min.min (i + kk) E2 : Nat) : Int) (setTT s t1a t2a) := fun b hb => by rw [hb]
       rw [hpd] at hr4
       have hr4' : ProbeW.insertRangeW (ofHashT s.doubleHashDictionary.h1 t1a) (List.take (E1 + 7) A) (Min.min (i + kk) E2)
           (Min.min (i + kk) E1 - Min.min (i + kk) E2) = some (ofHashT s.doubleHashDictionary.h1 t1b) := hr4
@@ -291,16 +409,14 @@ theorem loop1_step (grow : Nat → Nat → Nat) (e2I mm e1I : Int) (A : List UIn
       · rw [hnfE, hml, Option.bind_some]
         dsimp only
         rw [hmodel, Option.bind_some, hr2']; rfl
-      · refine bind_trans (v := (kk : Int))
-          (extBlock_eq _ (loop2_spec grow (y &&& s.doubleHashDictionary.h1.mask)) fuel A L i j k8 kk ia hia hw.1 hk8le hLA
-            (by omega) hme) ?_
+      · refine bind_trans (v := (kk : Int)) (by dhp_ext_block) ?_
         dsimp only
         refine bind_trans (slice_okI _ lia ia li i hlia hia hli (by show i ≤ A.length; omega)) ?_
         dsimp only
-        refine bind_trans hl3 ?_
+        refine bind_trans ((hl3b _ (by clamp_eq)).trans hl3) ?_
         dsimp only
         rw [if_pos (by omega)]
-        refine bind_trans (bind_trans hl4 rfl) ?_
+        refine bind_trans (bind_trans ((hl4b _ (by clamp_eq)).trans hl4) rfl) ?_
         dsimp only
         rw [e1, e2, e3]
         rfl
@@ -313,13 +429,11 @@ theorem loop1_step (grow : Nat → Nat → Nat) (e2I mm e1I : Int) (A : List UIn
       · rw [hnfE, hml, Option.bind_some]
         dsimp only
         rw [hsame, hr1', Option.bind_some, hr2']; rfl
-      · refine bind_trans (v := (kk : Int))
-          (extBlock_eq _ (loop2_spec grow (y &&& s.doubleHashDictionary.h1.mask)) fuel A L i j k8 kk ia hia hw.1 hk8le hLA
-            (by omega) hme) ?_
+      · refine bind_trans (v := (kk : Int)) (by dhp_ext_block) ?_
         dsimp only
         refine bind_trans (slice_okI _ lia ia li i hlia hia hli (by show i ≤ A.length; omega)) ?_
         dsimp only
-        refine bind_trans hl3 ?_
+        refine bind_trans ((hl3b _ (by clamp_eq)).trans hl3) ?_
         dsimp only
         rw [if_neg (by omega), bind_ok]
         dsimp only
